@@ -229,7 +229,9 @@ def indexing(S, shape, rep, alphabet):
     ntested = 0
     with S.mode():
         d = MultivariateNormal(mean, cov)
+        pc_mark = len(CTX.pc)
         for e in exprs:
+            del CTX.pc[pc_mark:]  # path conditions recorded while evaluating one index expression do not constrain the next
             idx = tuple(torch.tensor(i) if isinstance(i, list) else i for i in e)
             lab = "d[%s]" % ", ".join(str(i) for i in e)
             if any(i is None for i in idx):
